@@ -428,13 +428,14 @@ def s_oracle(case, text):
         roots = [t for _, t in v]
         trees.update(roots)
         multi = len(set(roots)) > 1
+        hasfrag = any(i in frag for i in ids)     # the fragment root counts as a document of its own in the library
         if len(set(ids)) != len(ids):
-            return "%s: a node occurs twice" % e, ("F7" if multi else None)
+            return "%s: a node occurs twice" % e, ("RTF-ROOT" if hasfrag else "F7" if multi else None)
         seen, cur = set(), None
         for t in roots:
             if t != cur:
                 if t in seen:
-                    return "%s: nodes of different trees are interleaved" % e, "F7"
+                    return "%s: nodes of different trees are interleaved" % e, ("RTF-ROOT" if hasfrag else "F7")
                 seen.add(t); cur = t
         for pos, (i, t) in enumerate(v):
             if i == t and pos > 0 and roots[pos - 1] == t:
